@@ -77,6 +77,14 @@ def run(res):
     for l in r.stdout.splitlines():
         if l.startswith("SUMMARY"): tot = {k: int(v) for k, v in parse_kv(l).items()}
         elif l.startswith("BAD"): bads.append(l)
+    # fixed regression case (repair D49): a --stdin-filepath without a parent directory under --respect-ignores ends with an error, not a panic
+    d0 = scratch("c17reg")
+    try:
+        code, out, err = stylua(["--no-editorconfig", "--respect-ignores", "--stdin-filepath", "/", "-"], d0, stdin=b"x=1")
+        if code not in (0, 2) or b"panicked" in err or (code == 2 and out):
+            bads.append("BAD stdin-filepath-without-parent:status-%d reg-root" % code)
+    finally:
+        cleanup(d0)
     tie_ok = r.returncode == 0 and not bads and tot.get("runs") == len(recs) and len(recs) > 0
     if proof["ok"] and tie_ok: res.coverage["discharged"] = proof["discharged"] + 1
     sizes = sorted(len(b) for b in ins)
@@ -96,6 +104,9 @@ def run(res):
                 w = l.split()
                 if w[1] in seen or len(seen) >= 4: continue
                 seen.add(w[1])
+                if w[2] == "reg-root":
+                    res.violation(dict(kind="input", check=w[1], cli=dict(stdin_hex=hexs(b"x=1"), options=dict(filepath="/", respect=True)), expected="an error message and status 2 (or the formatted text and status 0), never a panic"))
+                    continue
                 k = int(w[2][1:]); i, b, o = combos[k]
                 res.violation(dict(kind="input", check=w[1], cli=dict(stdin_hex=hexs(b) if len(b) < 20000 else "(input #%d of the generator, %d bytes)" % (i, len(b)), options=o), expected="CliModel.stdin_run (C17 theorems)"))
         else:
